@@ -1,5 +1,7 @@
 import Driver.Common
 import LachesisVerif.Model.Pos
+import LachesisVerif.Model.Enc
+import LachesisVerif.Model.Piecefunc
 open Drv
 
 namespace Drv.Quorum
@@ -38,3 +40,59 @@ def step (st : St) (ws : List String) : St × String :=
 
 def stream : StreamDef := { σ := St, init := {}, step := step }
 end Drv.Quorum
+
+namespace Drv.Enc
+open Model.Enc Bytes
+
+def idxWidth (t : String) : Nat := if t == "block" then 8 else 4
+
+def step (_ : Unit) (ws : List String) : Unit × String :=
+  let be := fun (k : Nat) (n : String) =>
+    let b := beBytes k (nat! n % 256 ^ k); s!"{hexOf b} {beVal b}"
+  let le := fun (k : Nat) (n : String) =>
+    let b := leBytes k (nat! n % 256 ^ k); s!"{hexOf b} {leVal b}"
+  let cmp := fun (k : Nat) (a b : String) => cmpStr (beBytes k (nat! a % 256 ^ k)) (beBytes k (nat! b % 256 ^ k))
+  let idOf := fun (e l t : String) => eventID (nat! e % 2 ^ 32) (nat! l % 2 ^ 32) (unhex t)
+  ((), match ws with
+  | ["be16", n] => be 2 n
+  | ["be32", n] => be 4 n
+  | ["be64", n] => be 8 n
+  | ["le16", n] => le 2 n
+  | ["le32", n] => le 4 n
+  | ["le64", n] => le 8 n
+  | ["cmp16", a, b] => cmp 2 a b
+  | ["cmp32", a, b] => cmp 4 a b
+  | ["cmp64", a, b] => cmp 8 a b
+  | ["idx", t, n] => be (idxWidth t) n
+  | ["idxcmp", t, a, b] => cmp (idxWidth t) a b
+  | ["id", e, l, t] => let id := idOf e l t; s!"{hexOf id} {idEpoch id} {idLamport id}"
+  | ["idbuild", e, l, t] => let id := idOf e l t; s!"{hexOf id} {idEpoch id} {idLamport id}"
+  | ["idcmp", e1, l1, t1, e2, l2, t2] => cmpStr (idOf e1 l1 t1) (idOf e2 l2 t2)
+  | _ => "bad-op")
+
+def stream : StreamDef := { σ := Unit, init := (), step := step }
+end Drv.Enc
+
+namespace Drv.Piecefunc
+open Model.Piecefunc
+
+def parseDot (s : String) : Dot :=
+  match s.splitOn ":" with
+  | [a, b] => ⟨nat! a, nat! b⟩
+  | _ => ⟨0, 0⟩
+
+def step (st : Option (List Dot)) (ws : List String) : Option (List Dot) × String :=
+  match ws with
+  | ["dots", l] =>
+    let dots := (splitList l).map parseDot
+    match newFunc dots with
+    | none => (some dots, "ok")
+    | some msg => (none, "panic " ++ msg)
+  | ["get", x] =>
+    match st with
+    | some dots => (st, toString (get dots (nat! x)))
+    | none => (st, "nofunc")
+  | _ => (st, "bad-op")
+
+def stream : StreamDef := { σ := Option (List Dot), init := none, step := step }
+end Drv.Piecefunc
